@@ -8,6 +8,8 @@ Lemmas: `Lemmas/BuildArgs.lean`.
 import FiddleModel.Lemmas.BuildArgs
 import FiddleModel.Model.Call
 import FiddleModel.Lemmas.Basic
+import FiddleModel.Lemmas.BuildKw
+import FiddleModel.Lemmas.OrderedKw
 
 namespace Fiddle
 open Sig
@@ -97,5 +99,41 @@ example : Sig.toArgsKwargs [⟨"a", .po, false⟩, ⟨"b", .po, true⟩, ⟨"c",
 
 example : buildCall [⟨"a", .po, true⟩, ⟨"b", .po, true⟩] { args := [(.idx 1, .v 5)] }
     = direct [⟨"a", .po, true⟩, ⟨"b", .po, true⟩] [(.idx 1, .v 5)] := by decide
+
+/-! ### The keyword part -/
+
+/-- **Nothing is invented or renamed**: every keyword argument `build` passes is a configured
+    argument, passed under its own name with its own value. -/
+theorem C01_keywords_are_configured (s : Sig) (d : Dict Val) (hd : d.NodupKeys)
+    (pos : List Val) (kw : Dict Val) (h : s.toArgsKwargs d false false = .ok (pos, kw))
+    (k : Key) (v : Val) (hk : kw.get? k = some v) : d.get? k = some v :=
+  (toArgsKwargs_kw s d false false hd pos kw h).sub k v hk
+
+/-- **Nothing is lost**: every configured argument whose name is not that of a
+    positional-or-keyword parameter - every keyword-only parameter and every `**kwargs` entry -
+    is passed by keyword, under its name, with its configured value; and no name is passed twice. -/
+theorem C01_keyword_only_and_kwargs_passed (s : Sig) (d : Dict Val) (hd : d.NodupKeys)
+    (pos : List Val) (kw : Dict Val) (h : s.toArgsKwargs d false false = .ok (pos, kw))
+    (n : String) (v : Val) (hn : ∀ p ∈ s, p.kind = .pk → p.name ≠ n)
+    (hv : d.get? (.name n) = some v) : kw.get? (.name n) = some v ∧ kw.NodupKeys :=
+  let l := toArgsKwargs_kw s d false false hd pos kw h
+  ⟨l.names n v hn hv, l.nodup⟩
+
+/-- **Keyword order is the configured order** (a callable may depend on it, PEP 468): the
+    keyword arguments are passed in the relative order in which they appear in the arguments
+    handed to `transform_to_args_kwargs`. -/
+theorem C01_keyword_order_kept (s : Sig) (d : Dict Val) (hd : d.NodupKeys)
+    (pos : List Val) (kw : Dict Val) (h : s.toArgsKwargs d false false = .ok (pos, kw)) :
+    kw.Sublist d :=
+  (toArgsKwargs_kw s d false false hd pos kw h).order
+
+/-- ... and those arguments list the `**kwargs` entries in the order in which they were
+    configured: `ordered_arguments` (as `build` calls it) is the parameter part followed by
+    exactly the extra entries of `__arguments__` in insertion order. Together with
+    `C01_keyword_order_kept`: `**kwargs` reach the callable in the order they were given. -/
+theorem C01_kwargs_in_configured_order (s : Sig) (c : Cfg) (hn : c.args.NodupKeys)
+    (hs : (s.map (·.name)).Nodup) (oa : Dict Val) (h : c.orderedArguments s {} = .ok oa) :
+    oa = Cfg.oaLoop c.args {} s 0 [] ++ c.args.filter (isExtra s) :=
+  orderedArguments_extras s c hn hs oa h
 
 end Fiddle
